@@ -610,6 +610,25 @@ def sequence_set_to_list(
 
 ####################################################################
 #
+def quoted(value: str) -> str:
+    """Format a string as an IMAP quoted string.
+
+    Backslashes and double quotes are escaped (RFC 3501 `quoted`). CR and LF
+    can not be part of a quoted string at all: runs of them are replaced
+    with a single space.
+
+    Args:
+        value: The text to send to the client as a quoted string.
+
+    Returns:
+        The text enclosed in double quotes.
+    """
+    value = value.replace("\\", "\\\\").replace('"', '\\"')
+    return '"' + re.sub(r"[\r\n]+", " ", value) + '"'
+
+
+####################################################################
+#
 def get_uidvv_uid(hdr: str) -> tuple:
     """Parse the uid_vv and uid integers from an `X-asimapd-uid` header value.
 
